@@ -101,8 +101,9 @@ def private_helpers(src, file, imp, not_called_in=None):
             if not inf2 or inf2['trait'] is not None or inf2['self_ty'][0] != 'tpath': continue
             self_txt = type_text(inf2['self_ty']).replace(' ', '')
         def ty_txt(ty):
-            t = type_text(ty).replace(' ', '')
-            return re.sub(r'\bSelf\b', self_txt, t) if self_txt else t
+            t = type_text(ty)
+            if self_txt: t = re.sub(r'\bSelf\b', self_txt, t)
+            return t.replace(' ', '')
         ent = dict(params=[(pn.strip()[4:].strip() if pn.strip().startswith('mut ') else pn.strip(), ty_txt(ty)) for pn, ty in sig['params']], body=body)
         if i2 is None:
             if (fn.parent is None or fn.parent.kind != 'impl') and not has_self: out[(fn.name,)] = ent
@@ -120,8 +121,9 @@ def caller_param_types(src, imp, fn):
     if info: self_txt = type_text(info['self_ty']).replace(' ', '')
     out = {}
     for pn, ty in sig['params']:
-        t = type_text(ty).replace(' ', '')
+        t = type_text(ty)
         if self_txt: t = re.sub(r'\bSelf\b', self_txt, t)
+        t = t.replace(' ', '')
         pn = pn.strip()
         if pn.startswith('mut '): pn = pn[4:].strip()
         out[pn] = t
@@ -324,6 +326,10 @@ def extract_layout(src, facts, notes):
         f, imp, fn = r
         try:
             sig = parse_fn_sig(fn.header); body = fn_body(fn)
+            hs = private_helpers(src, f, imp)
+            if hs:
+                import canon
+                body = canon.inline_helpers(body, hs, caller_param_types(src, imp, fn))
         except ParseError as ex:
             notes.append('layout: cannot parse %s: %s' % (qname, ex)); return None
         return sig, body, LayoutCtx(sig), collect_lets(body)
@@ -1085,9 +1091,12 @@ def is_ptr_eq(e):
 def classify_cmp(ty, meth, fn, helpers=None, caller_types=None):
     try:
         body = fn_body(fn)
-        if helpers:
-            import canon
-            body = canon.inline_helpers(body, helpers, caller_types)
+        import canon
+        if helpers: body = canon.inline_helpers(body, helpers, caller_types)
+        # early returns and `if a { true } else { b }` spelled as the short-circuit operators they are
+        if not (ty == 'ArcUnion' and meth == 'eq'):
+            nb = canon.normalise_light(body)
+            if isinstance(nb, tuple) and nb and nb[0] == 'block': body = nb
     except ParseError:
         return 'FUnknownForm'
     stm = [x for x in body[1] if x[0] != 'item']
@@ -1256,8 +1265,8 @@ def ser_body(fn):
         r = None
     return r if r else ('SOther', 0)
 
-def de_body(fn):
-    b = fn_body(fn)
+def de_body(fn, body=None):
+    b = fn_body(fn) if body is None else body
     if b[1] or b[2] is None: return 'DOther', 0
     CT = {'Arc::new': ('CArcNew', 0), 'UniqueArc::new': ('CUniqueNew', 1), 'Self::new': None}
     def ctor_of(e, self_head):
@@ -1308,9 +1317,14 @@ def extract_serde(src, facts, notes):
                     S['ser_arc' if head == 'Arc' else 'ser_uniq'] = ser_body(fns[0])
                 elif trn == 'Deserialize' and fns[0].name == 'deserialize':
                     b = fn_body(fns[0])
+                    if b[1]:
+                        # `let v = T::deserialize(d)?; Ok(Arc::new(v))` and the like: the normal form of the body
+                        import canon
+                        nb = canon.normalise(b, ())
+                        b = nb if (isinstance(nb, tuple) and nb and nb[0] == 'block') else ('block', [], nb)
                     r = None
                     if not b[1] and b[2] is not None:
-                        r = de_body(fns[0])(b[2], head) if callable(de_body(fns[0])) else None
+                        r = de_body(fns[0], b)(b[2], head) if callable(de_body(fns[0], b)) else None
                     S['de_arc' if head == 'Arc' else 'de_uniq'] = r if r else ('DOther', 0)
             except (ParseError, IndexError, TypeError, KeyError) as ex:
                 notes.append('serde: %s %s for %s: %s' % (f, trn, st, ex))
